@@ -29,6 +29,7 @@ func init() {
 	families["spec"] = &family{gen: genSpecCase, run: runSpecCase, prep: prepSpecCase, isolate: true}
 	families["specmut"] = &family{gen: genSpecMutCase, run: runSpecCase, prep: prepSpecCase, isolate: true}
 	families["speccat"] = &family{gen: genSpecCatCase, run: runSpecCase, prep: prepSpecCase, isolate: true}
+	families["specfix"] = &family{gen: genSpecFixCase, run: runSpecCase, prep: prepSpecCase, isolate: true}
 }
 
 func genSpecCase(rng *rand.Rand, idx int, tier string) Case {
@@ -294,6 +295,20 @@ func genSpecMutCase(rng *rand.Rand, idx int, tier string) Case {
 		via = "yamlfile"
 	}
 	return Case{"doc": doc, "edits": muts, "source": src, "strict": rng.Intn(5) == 0, "via": via}
+}
+
+// family "specfix": every fixture document of the repository (up to 120 kB), as it is, one per index: what the project's
+// own tests load, seen through this harness's eyes (repeated, reloaded, reordered, used validator, snapshots before/after)
+func genSpecFixCase(rng *rand.Rand, idx int, tier string) Case {
+	loadFixtureList()
+	if len(fixtureDocs) > 0 {
+		f := fixtureDocs[idx%len(fixtureDocs)]
+		if d, ok := fixtureAsJSON(f); ok {
+			return Case{"doc": d, "edits": []string{"fixture"}, "source": strings.TrimPrefix(f, "/repo/"), "strict": false, "via": "raw"}
+		}
+	}
+	doc, _ := genSpecDoc(rng, tier, 20, 1, false)
+	return Case{"doc": doc, "edits": []string{}, "source": "grammar", "strict": false, "via": "raw"}
 }
 
 // oracle tables: every pattern of the document (pattern keywords, patternProperties keys) against
